@@ -160,6 +160,20 @@ def check_tree(case, ev):
         for m in errs:
             if not any(rel in m for rel in failing):
                 return Finding("faults/error-for-a-good-file", "ERROR record %r" % m[:300], case)
+        # the command line reports every failing file as well (same tree, fresh output directory)
+        if len(failing) >= 2 and not blocked and any(case["features"]) and not case["salt"].startswith("-"):
+            pwd_, ip_, words_, asn_ = case["features"]
+            argv_f = ["-i", src, "-o", os.path.join(d, "cli-fail-out"), "-s", case["salt"], "--preserve-host-bits", str(case.get("B", 8))]
+            argv_f += (["-p"] if pwd_ else []) + (["-a"] if ip_ else []) + (["-w", ",".join(WORDS)] if words_ else []) + (["-n", ",".join(ASNS)] if asn_ else [])
+            with core.capture_logs(logging.ERROR) as errs_cli:
+                _, exc = guarded(main, argv_f)
+            if exc is not None:
+                return core.exc_finding(exc, case, "main/")
+            shutil.rmtree(os.path.join(d, "cli-fail-out"), ignore_errors=True)
+            msgs = [m for _, m in errs_cli]
+            for rel in sorted(failing):
+                if not any(rel in m for m in msgs):
+                    return Finding("faults/failing-file-not-reported:via-command-line", "%d files fail, ERROR records via main(): %r - nothing names %r" % (len(failing), msgs[:3], rel), case)
         # reference run without the failing files
         src2, dst2 = os.path.join(d, "ref-in"), os.path.join(d, "ref-out")
         ok_files = [(rel, data) for rel, data in files if rel not in failing]
@@ -271,7 +285,7 @@ def _text(draw, big=False):
         elif k == 4:
             lines.append(draw(st.sampled_from(["router bgp 65001", "ipv6 address 2001:db8:%x::%x/64" % (draw(st.integers(0, 65535)), draw(st.integers(1, 65535))), "neighbor fe80::%x remote-as 123" % draw(st.integers(1, 65535))])))
         else:
-            lines.append(draw(st.sampled_from(["!", "", "interface Gi0/1", "é ü", " description x"])))
+            lines.append(draw(st.sampled_from(["!", "", "interface Gi0/1", "é ü", " description x", " description à la carte  Åre", "password Åre-North-2024", "hostname zürich-zorgon РФ", "snmp-server location Straße\u00a0à 7"])))
     eol = draw(st.sampled_from(["\n", "\n", "\r\n"]))
     t = eol.join(lines) + (eol if lines and draw(st.integers(0, 4)) else "")
     return t
